@@ -16,6 +16,8 @@
     [okerr o] := (exists a, o = OOk a) \/ (exists e, o = OErr e). *)
 From Coq Require Import List NArith ZArith Bool.
 From Vivid Require Import Codec.Prim Codec.PrimProofs Codec.Prim2 Codec.Prim2Proofs Codec.Reflect Codec.ReflectProofs.
+From Vivid Require Import Codec.PrimO Codec.ReflectO Codec.ReflectOProofs Codec.Buf Codec.BufProofs.
+From Coq Require Import Lia.
 Import ListNotations.
 Local Open Scope N_scope.
 
@@ -175,3 +177,80 @@ Print Assumptions C13_readbytes_negative_refuted.
 Print Assumptions C13_no_clobber.
 Print Assumptions C13_read_into_vars.
 Print Assumptions C13_read_into_clobber_refuted.
+
+(** * Part II — C13, the Writer and the Reader as STATE MACHINES (Codec/Buf.v) and the order-parametric generic codec
+    (Codec/ReflectO.v): every operation, in every state, of either byte order, ends in a value or an error — no panic, no
+    loop; the Reader's position never leaves the buffer (Remaining() / the bounds checks cannot slice out of range), also
+    after a decode that failed half way; the Writer's capacity is never below its length and never more than twice what was
+    written (or what it had).  Lemmas in Codec/ReflectOProofs.v, BufProofs.v.
+    Vocabulary: see C12_reflect.v, Part II. *)
+(** ** decode: every byte string, every Reader state, either byte order *)
+(** Read(&x) for every type: Ok or Err; what was consumed is a prefix of the remaining input ([h]), non-empty unless the
+    type occupies no bytes; the element counter grows by exactly what the meter says; and on the FAILURE path the meter
+    never claims more than there was — so the position of a Reader after a failed Read is inside its buffer *)
+Theorem C13_read_any_order o tot ty st :
+  (exists v st' h, fst (readO o tot ty st) = OOk (v, st') /\ fst st = h ++ fst st' /\ (negb (wire0 ty) = true -> h <> [])
+                   /\ snd st' = snd st + elemsO (readO o tot ty st) /\ consumedO (readO o tot ty st) = N.of_nat (length h))
+  \/ (exists e, fst (readO o tot ty st) = OErr e /\ consumedO (readO o tot ty st) <= N.of_nat (length (fst st))).
+Proof. exact (readO_good o tot ty st). Qed.
+(** every functional reader the Reader machine runs (the twelve ReadXxx, length-prefixed bytes, Read, ReadInto, the frame
+    of ReadMessage) ends in Ok or Err: the machine's "cannot happen" branch is never taken *)
+Theorem C13_reader_functions_total :
+  (forall o b bs, okerr (fst (rprimO o b bs))) /\
+  (forall o k bs, (1 <= k)%nat -> okerr (fst (lpnO o k bs))) /\
+  (forall o tot ty st, okerr (fst (readO o tot ty st))) /\
+  (forall o tot tys st, okerr (fst (read_intoO o tot tys st))) /\
+  (forall o bs, okerr (fst (msg_frame o bs))).
+Proof. exact reader_okerr. Qed.
+(** every operation on a Reader (incl. Skip, Seek, Reset and ReadMessage through the pool, any registry, any scripts)
+    keeps 0 <= Pos() <= len(buf) *)
+Theorem C13_reader_position_in_range env op r p : r_ok r -> r_ok (fst (fst (run_rop env op r p))).
+Proof. exact (run_rop_inv env op r p). Qed.
+Theorem C13_reader_script_position_in_range ops r :
+  r_ok r -> r_ok (fst (run_props ops r)) /\ r_buf (fst (run_props ops r)) = r_buf r /\ r_ord (fst (run_props ops r)) = r_ord r.
+Proof. exact (run_props_inv ops r). Qed.
+(** the sticky error: in the error state every read returns that error and changes nothing — except Seek (which clears
+    the error), ReadInto() of nothing and ReadBytesWithLength with an invalid size (which do not look at the Reader) *)
+Theorem C13_reader_sticky op r e : r_err r = Some e -> reads op = true -> plain_rop op r = (r, inr (XE e)).
+Proof. exact (reader_sticky op r e). Qed.
+Theorem C13_seek_clears_error_and_budget p r :
+  (0 <= p <= Z.of_N (rlen r))%Z -> plain_rop (RSeek p) r = (mkR (r_buf r) (Z.to_N p) (r_ord r) None 0, inl RVUnit).
+Proof. exact (seek_spec p r). Qed.
+
+(** ** encode: every Go value, either byte order *)
+Theorem C13_write_any_order o ty v : has_typeb ty v = true -> wokerr (writeC o ty v).
+Proof. exact (writeC_total o ty v). Qed.
+Theorem C13_write_from_any_order o l : forallb (fun p => has_typeb (fst p) (snd p)) l = true -> wokerr (write_fromC o l).
+Proof. exact (write_fromC_total o l). Qed.
+
+(** ** the Writer's buffer *)
+(** after ensureCapacity(n) there is room for n bytes: append never reallocates behind ensureCapacity's back *)
+Theorem C13_ensure_capacity_room n w : w_ok w -> w_err w = None -> wlen (ensure n w) + n <= w_cap (ensure n w).
+Proof. exact (ensure_room n w). Qed.
+(** every operation but Reset (nested messages included): the capacity does not shrink and is at most
+    max(capacity before, 2 * length after) — or the operation was a failed WriteMessage and the capacity is unchanged *)
+Theorem C13_writer_capacity op w p w' p' e :
+  w_ok w -> op <> WReset -> run_wop op w p = (w', p', e) ->
+  w_cap w <= w_cap w' /\ w_cap w' <= N.max (w_cap w) (2 * wlen w') \/ (w_cap w' = w_cap w /\ e <> None).
+Proof. exact (run_wop_cap op w p w' p' e). Qed.
+
+(** ** the hypotheses are satisfiable *)
+Example C13_ex_failed_read_position :
+  let r := mkR [0; 0; 0; 2; 0; 0; 0; 9; 1] 0 BE None 0 in
+  r_ok r /\ plain_rop (RRead (TSlice false (TBasic BStr))) r = (mkR (r_buf r) 8 BE (Some EEOF) 2, inr (XE EEOF)).
+Proof. split; [cbv; discriminate|vm_compute; reflexivity]. Qed.
+Example C13_ex_sticky : reads (RPrim BU8) = true /\ reads (RReadInto []) = false.
+Proof. split; reflexivity. Qed.
+Example C13_ex_capacity : let w := mkW [1] 1 BE None in w_ok w /\ w_cap (fst (fst (run_wop (WBytes [2; 3; 4]) w (mkWP [] [])))) = 4.
+Proof. split; [cbv; discriminate|reflexivity]. Qed.
+
+Print Assumptions C13_read_any_order.
+Print Assumptions C13_reader_functions_total.
+Print Assumptions C13_reader_position_in_range.
+Print Assumptions C13_reader_script_position_in_range.
+Print Assumptions C13_reader_sticky.
+Print Assumptions C13_seek_clears_error_and_budget.
+Print Assumptions C13_write_any_order.
+Print Assumptions C13_write_from_any_order.
+Print Assumptions C13_ensure_capacity_room.
+Print Assumptions C13_writer_capacity.
